@@ -32,9 +32,12 @@ Exclusions / soundness notes
     repair in /repo made the second outcome the actual one).
   * The file position after a call with an explicit offset is not documented;
     it is treated as unknown until the next absolute seek.  A single-request
-    read (size <= block_size, or block_size=None) may legitimately return a
-    short result when the server answered short; only prefix-correctness and
-    progress (>= 1 byte) are asserted there.
+    read of an explicit size (size <= block_size, or block_size=None) may
+    legitimately return a short result when the server answered short; only
+    prefix-correctness and progress (>= 1 byte) are asserted there.  A read
+    with a negative size is documented to return everything up to the end
+    of the file and is held to that (the first version of this check let it
+    off as well; the unchanged tree returned 1 of 99 bytes: repaired).
   * FX_EOF as the answer to a WRITE and error statuses on CLOSE are not
     generated ("status != OK/EOF" on blocks only).
   * Three defects of the unchanged tree are recorded in known_findings.json
@@ -685,7 +688,17 @@ def run_program(case, backend: Backend, sftp, labels: set,
                         'data-mismatch:read' +
                         (':parallel' if parallel else ':single'))
 
-                complete = parallel or backend.shorts() == shorts0
+                # documented: "If size is negative, all data up to the end
+                # of the file is returned" - also from a server that answers
+                # short (unless the file was opened with block_size=None:
+                # one request, no splitting, by the caller's choice)
+                to_eof = n is None or n < 0
+                complete = parallel or backend.shorts() == shorts0 or \
+                    (to_eof and bool(read_len))
+
+                if to_eof and not parallel and \
+                        backend.shorts() != shorts0:
+                    labels.add('read-to-eof:short-answer:single-request')
 
                 if len(got) != len(want_all) and \
                         (complete or (want_all and not got)):
@@ -1108,7 +1121,7 @@ def run_real(case) -> CaseResult:
             cut = next(short)
             counters['reads'] += 1
 
-            if cut and cut < size and op != 'copy':
+            if cut and cut < size:
                 file_obj.seek(offset)
                 data = file_obj.read(cut)
 
@@ -1273,6 +1286,28 @@ def real_strategy(tier: str):
     max_ops = 6 if tier == 'quick' else 12
 
     @st.composite
+    def short_reader(draw):
+        """A server whose every read comes back short, a file of many more
+        blocks than the client keeps in flight, whole-file reads: in every
+        protocol version (v6 replies carry an end-of-file flag)"""
+
+        bs = draw(pick([64, 64, 7, 16384]))
+        mr = draw(pick([1, 2, 3]))
+        cut = draw(pick([1, 3, 63])) if bs <= 64 else \
+            draw(pick([1000, 4095]))
+        cut = min(cut, max(bs - 1, 1))
+        size = bs * mr * draw(pick([3, 5, 8])) + draw(pick([0, 1, 17]))
+        size = min(size, 140000)
+        rd = draw(pick([['read', -1, None], ['readp', -1, None],
+                        ['read', -1, 0], ['readp', size - 1, 1]]))
+        return {'op': 'file', 'version': draw(pick([3, 4, 5, 6, 6])),
+                'short': [cut], 'mode': 'rb', 'bs': bs, 'mr': mr,
+                'init_size': size, 'seed': draw(st.integers(0, 250)),
+                'ops': [rd] + draw(st.lists(pick(
+                    [['seek', 0, 0], ['read', -1, None], ['tell']]),
+                    max_size=2))}
+
+    @st.composite
     def build(draw):
         op = draw(pick(['get', 'put', 'copy', 'file', 'file']))
         version = draw(pick([3, 4, 5, 6]))
@@ -1352,7 +1387,7 @@ def real_strategy(tier: str):
                 'ranges_batch': draw(pick([None, None, 1, 2, 3]))
                 if sparse_file and len(fi['pages']) < 100 else None}
 
-    return build()
+    return st.one_of(build(), build(), build(), short_reader())
 
 
 # ---------------------------------------------------------------------------
